@@ -138,7 +138,8 @@ class Item:
         self.is_enum = r.random() < 0.45
         self.lifetime = r.random() < 0.12
         np = r.choice([0, 0, 0, 1, 1, 2])
-        self.params = ['T', 'U'][:np]
+        # names in and out of alphabetical order (nothing may depend on the spelling of a parameter)
+        self.params = r.choice([['T', 'U'], ['T', 'U'], ['U', 'T'], ['Value', 'Key'], ['T2', 'T10'], ['B', 'A']])[:np]
         self.skip_params = [p for p in self.params if r.random() < 0.25]
         self.capture = r.choice(['d', 'd', 'd', 'a', 'n'])
         self.capture_text = r.choice({'d': ['default', 'Default', 'DEFAULT'], 'a': ['always', 'Always', 'ALWAYS'], 'n': ['never', 'Never', 'NEVER']}[self.capture])
@@ -618,6 +619,15 @@ def main():
     for v, o in zip(vs, ['fwd', 'fwd', 'rev', 'fwd', 'fwd']):
         v.attr_order = o
     it.variants = vs
+    # a user type that is merely NAMED like the marker: a member of that type carries data and must be listed
+    shim = cat_item(mods=['shim'])
+    shim.ident, shim.params, shim.shape, shim.fields = 'PhantomData', ['T'], 'x', [Field(None, Param('T'))]
+    it = cat_item()
+    it.fields = [Field('a', u8), Field('b', Adt(shim, [u32])), Field('c', T('ph', u16)), Field('d', T('tup', Adt(shim, [bl]), u8))]
+    # type parameters whose names are not in alphabetical order, the middle one skipped
+    it = cat_item()
+    it.params, it.skip_params = ['Zed', 'M', 'Alpha'], ['M']
+    it.fields = [Field('z', Param('Zed')), Field('m', T('ph', Param('M'))), Field('a', T('vec', Param('Alpha')))]
     # sizes at the edge of the format: every u8 variant index in use; more members than a one-byte compact length holds
     it = cat_item()
     it.is_enum = True
